@@ -34,7 +34,9 @@ sys.modules[MODULE] = _mod
 
 FALSY = (None, 0, '', False, [], {})
 FALSY_DEFAULTS = (0, '', False, [], {})      # without None, so that "all None" arguments never equal a default
-DEFAULT_VARIANTS = ('truthy', 'none', 'falsy')
+DEFAULT_VARIANTS = ('truthy', 'none', 'falsy', 'fresh')
+# defaults that CPython does not intern / share: an equal value computed at run time is a different object
+FRESH_DEFAULTS = {1: 901.5, 2: 'the default of parameter p2', 3: (903, 'x'), 12: 10 ** 12 + 912}
 ARG_MODES = ('origin', 'none', 'falsy')
 
 
@@ -44,8 +46,29 @@ def default_value(p: int, dv: str):
     return 900 + p
   if dv == 'none':
     return None
+  if dv == 'fresh':
+    return FRESH_DEFAULTS[p]
   v = FALSY_DEFAULTS[p % len(FALSY_DEFAULTS)]
   return type(v)() if isinstance(v, (list, dict)) else v
+
+
+def equal_copy(x):
+  """A value equal to x that is, whenever the type allows it, a different object (computed at run time)."""
+  if isinstance(x, bool) or x is None:
+    return x
+  if isinstance(x, int):
+    return int(str(x))
+  if isinstance(x, float):
+    return float(repr(x))
+  if isinstance(x, str):
+    return ''.join(list(x))
+  if isinstance(x, tuple):
+    return tuple(equal_copy(e) for e in x)
+  if isinstance(x, list):
+    return [equal_copy(e) for e in x]
+  if isinstance(x, dict):
+    return {k: equal_copy(v) for k, v in x.items()}
+  return x
 
 
 class Palette:
@@ -56,7 +79,9 @@ class Palette:
     self.name = f'{argmode}/{dv}'
 
   def leaf(self, v: int):
-    if 900 <= v < 1000:
+    if 950 <= v < 1000:                     # DefaultCopy(p): equal to the default of p, not the same object
+      return equal_copy(default_value(v - 950, self.dv))
+    if 900 <= v < 950:
       return default_value(v - 900, self.dv)
     if self.argmode == 'origin':
       return v
@@ -77,7 +102,8 @@ class Palette:
 # An argument value never coincides with a default: whether binding a value EQUAL to the default counts as
 # "specified" is not documented (the constructor says yes, assignment says no) and stays a don't-care.
 PALETTES = [Palette(a, d) for a, d in (('origin', 'truthy'), ('none', 'truthy'), ('falsy', 'truthy'),
-                                       ('origin', 'none'), ('origin', 'falsy'), ('none', 'falsy'))]
+                                       ('origin', 'none'), ('origin', 'falsy'), ('none', 'falsy'),
+                                       ('origin', 'fresh'))]
 IDENTITY = PALETTES[0]
 
 
@@ -421,7 +447,7 @@ def annotation_spec(sig: dict, dv: str, p: int, mode: str):
   if mode == 'nodefault':
     return pg.typing.Any()
   if mode == 'same':
-    return pg.typing.Any(default=default_value(p, dv))
+    return pg.typing.Any(default=equal_copy(default_value(p, dv)))      # equal, not the same object
   if mode == 'noneable':
     return pg.typing.Any(default=None)       # "may be None": the callable's own default must stand
   if mode == 'conflict':
@@ -473,6 +499,7 @@ class Divergence(Exception):
     super().__init__(clause)
     self.clause, self.expected, self.observed, self.step = clause, expected, observed, step
     self.after_json = False
+    self.diff = None
 
 
 class Replayer:
@@ -552,6 +579,8 @@ class Replayer:
       self.f.rebind(updates, raise_on_no_change=False)
       self.hit('Rebind')
       self.hit('Rebind-entries:%d' % len(kinds))
+      if 'dflt' in kinds:
+        self.hit('Rebind:equal-to-default')
       if 'in' in kinds and kinds.index('in') < len(kinds) - 1:
         self.hit('Rebind:nested-before-top')
     elif name == 'Clone':
@@ -584,10 +613,18 @@ class Replayer:
       raise MachineryFailure(f'unknown action {name}')
     # after every step on a live functor: what it reports must be what the spec says is bound
     if st['phase'] == 'built':
-      rep = {NAME[n]: (pal.exp(v) if v != 0 else pg.MISSING_VALUE) for n, v in _pairs(st['rep']).items()}
+      rep = {NAME[n]: (pal.exp(v) if v != 0 else pg.MISSING_VALUE) for n, v in _pairs(st['rep']['args']).items()}
       bound = _pairs(st['bound'])
       extras = {NAME[n]: pal.exp(v) for n, v in bound.items() if NAME[n] not in rep}
       want = plain({'vals': rep, 'va': [pal.exp(v) for v in st['vargs']], 'kwx': extras})
       got = sym_args_of(self.f, sig)
       if got != want:
         raise Divergence('sym_init_args', want, got, k)
+      # non_default_args / default_args are decided by the VALUE of each argument
+      for clause, spec_set, got_set in (('non_default_args', st['rep']['nondef'], self.f.non_default_args),
+                                        ('default_args', st['rep']['dflt'], self.f.default_args)):
+        want_names = sorted('args' if n == 99 else NAME[n] for n in spec_set)
+        if sorted(got_set) != want_names:
+          d = Divergence(clause, want_names, sorted(got_set), k)
+          d.diff = 'args' if set(got_set) ^ set(want_names) == {'args'} else 'named'
+          raise d
